@@ -139,20 +139,32 @@ Fixpoint number_pouts (p : N) (sid : N) (l : list (N * req)) : list pout :=
   end.
 
 (* on_connection_established: every request waiting for the dial gets a substream (repaired
-   code; the unrepaired code kept only the last one).  conn_ok: open_substream succeeds. *)
-Definition h_established (s : pst) (p : N) (conn_ok : bool) (sid0 : N) : pst * list out :=
+   code; the unrepaired code kept only the last one).  open_substream is attempted for each
+   queued request in order; nok = how many of these attempts succeed (the connection's command
+   channel accepts the first nok commands, the rest fail with ChannelClogged / ConnectionClosed).
+   A request enters the peer's active set only when its substream is being opened; the peer is
+   registered unless every attempt failed. *)
+Definition h_established (s : pst) (p : N) (nok : nat) (sid0 : N) : pst * list out :=
   if memN p (peers s) then (s, []) else
   let mine := filter (fun d => fst d =? p) (dials s) in
   let s := set_dials s (filter (fun d => negb (fst d =? p)) (dials s)) in
   match mine with
   | [] => (set_peers s (peers s ++ [p]), [])
   | _ =>
-    if conn_ok then
+    let bad := map (fun d => OFail (q_rid (snd d)) E_SUBSTREAM) (skipn nok mine) in
+    match firstn nok mine with
+    | [] => (s, bad)
+    | okl =>
       (set_pouts (set_active (set_peers s (peers s ++ [p]))
-                    (active s ++ map (fun d => (p, q_rid (snd d))) mine))
-                 (pouts s ++ number_pouts p sid0 mine), [])
-    else (s, map (fun d => OFail (q_rid (snd d)) E_SUBSTREAM) mine)
+                    (active s ++ map (fun d => (p, q_rid (snd d))) okl))
+                 (pouts s ++ number_pouts p sid0 okl), bad)
+    end
   end.
+
+(* how many open_substream calls succeed when a connection is reported: none on a dead command
+   channel, all on a roomy one (cap = 0), otherwise as many as the channel has room for *)
+Definition est_nok (broken : bool) (cap : N) (n : nat) : nat :=
+  if broken then O else if cap =? 0 then n else N.to_nat cap.
 
 (* on_connection_closed *)
 Definition h_closed (s : pst) (p : N) : pst * list out :=
@@ -393,7 +405,7 @@ Definition set_chan (c : N) (ch : chan) (l : list chan) : list chan :=
 Inductive ev :=
 | ESend (p : N) (dial : bool) (len tag : N)
 | ECancel (rid : N)
-| EEstablished (p : N) (broken : bool)
+| EEstablished (p : N) (broken : bool) (cap : N)
 | EClosed (p : N)
 | EDialFail (p : N)
 | EOpened (k gate : N)
@@ -433,14 +445,16 @@ Definition step (cf : cfg) (st : pst * env) (e : ev) : (pst * env) * list out * 
     (s1, en1, o, None)
   | ECancel rid =>
     let '(s1, o) := h_cancel s rid in (s1, en, o, None)
-  | EEstablished p broken =>
+  | EEstablished p broken cap =>
     match conn_of p en with
     | Some _ => (s, en, [], None)
     | None =>
       let mine := filter (fun d => fst d =? p) (dials s) in
       let tried := if memN p (peers s) then [] else mine in
-      let opened := if broken then [] else tried in
-      let '(s1, o) := h_established s p (negb broken) (next_sid en) in
+      let nok := est_nok broken cap (length mine) in
+      let opened := firstn nok tried in
+      let '(s1, o) := h_established s p nok (next_sid en) in
+      (* every attempt draws a substream id, also the failing ones *)
       let en1 := mkE (next_sid en + N.of_nat (length tried)) (conns en ++ [(p, negb broken)])
                      (opens en ++ map (fun po => (po_sid po, p)) (number_pouts p (next_sid en) opened))
                      (chans en) (now en) (hpend en) in
